@@ -102,6 +102,21 @@ CHECKS = {
               'is swept densely around the 0.015 % boundary (incl. float neighbours) through the real routing functions.'),
         note='wrong-sided initial exits (replaced by market orders, a documented convenience) are not driven',
         ref='DESIGN.md section 3 C10'),
+    'C16': dict(
+        technique='reference-model monitors: plain-Python recomputation of metrics on synthetic trade lists / balance series + shadow-account equity vs every daily sample of real sessions',
+        text=('Part A/B call the real metrics.trades on synthetic ClosedTrade lists (all degenerate classes) and balance series '
+              'and compare every identity / ratio with an independent recomputation; Part C compares each sample appended by the '
+              'daily sampler in multi-day sessions (futures, spot, one and two routes in both orders, both simulators) with the '
+              'equity of a shadow account fed only by order events, plus series length and end points.'),
+        note='drawdown reading = compounded returns (start not a peak); Sortino accepts N or N+1 in the downside denominator',
+        ref='DESIGN.md section 3 C16'),
+    'C20': dict(
+        technique='direct oracle on bounded-exhaustive/random inputs + shadow-model monitor ({timestamp: row}) over add sequences on the real candle store',
+        text=('_fill_absent_candles on every missing-minute pattern up to 10 minutes and random patterns to 1500 minutes; random '
+              'sequences of add_candle / add_multiple_1m_candles (new, repeated, older known/unknown, overlapping bulk) on a real '
+              'store compared with a timestamp-keyed model after every operation; leading-spacing validation of research.backtest.'),
+        note='exhaustive only for intervals <= 10 minutes',
+        ref='DESIGN.md section 3 C20'),
 }
 
 NOT_YET = 'check under construction in this round (see DESIGN.md section 3); not claimed until it runs clean on the unchanged tree'
